@@ -21,7 +21,12 @@ busy callback, or "run again later") and `again` (what the loop thread calls aft
 run_forever() before it calls run_forever() again).  run_forever() returns between two iterations of
 _run_once with whatever is queued still queued -- e.g. a marshalled cancel_handle and the callback it is to
 cancel; a dispose() that found the loop running must stay in future.result() until the loop is run again
-and cancel_handle has run ON the loop.  The oracle is the same on these histories."""
+and cancel_handle has run ON the loop.  The oracle is the same on these histories.
+
+schedule_absolute of both classes (["abs", t, a]; the model's AAbs: schedule_relative(t - now)), negative relative
+delays, and foreign threads that dispose from inside a running event loop of their own (case key own_loop: the last
+line of _on_self_loop_or_not_running) are part of the scenario language; "not earlier than due" is the theorem
+C33_not_early (Core/AsyncIOTime.v) on the model and the `early` oracle on the real loop."""
 from __future__ import annotations
 
 import hashlib
@@ -86,22 +91,53 @@ FIXED = [
     # a foreign thread stops the loop (loop.stop() is a plain store) and disposes while it may or may not still run
     {"ts": True, "t0": 0, "pre": [["rel", 500, 1]], "again": [[["sleep", 60000]]],
      "progs": [[["now", 2], ["stop"], ["dispose", 1], ["dispose", 2]]], "bodies": {}, "ticks": [500]},
+    # ---- schedule_absolute (both classes: schedule_relative(duetime - now)), negative relative delays ----
+    # thread-safe: an absolute time ahead (two-stage), one in the past and a negative relative delay (both schedule());
+    # a foreign dispose of the two-stage one
+    {"ts": True, "t0": 200, "pre": [["abs", 1707, 1], ["abs", 100, 2], ["rel", -700, 3]], "progs": [[["dispose", 1]]],
+     "bodies": {}, "ticks": [500, 1000, 7]},
+    # the same window as the first case, entered through schedule_absolute from the foreign thread
+    {"ts": True, "t0": 5000, "pre": [], "progs": [[["abs", 6000, 1], ["dispose", 1]]], "bodies": {}, "ticks": [1000]},
+    # plain scheduler: absolute ahead / in the past / exactly now, negative relative; scheduled before run_forever()
+    # and from inside an action at a later clock; dispose between
+    {"ts": False, "t0": 200, "pre": [["abs", 1707, 1], ["abs", 100, 2], ["rel", -700, 3], ["abs", 200, 4], ["abs", 1214, 5],
+                                     ["dispose", 5]],
+     "progs": [], "bodies": {"2": [["abs", 721, 6]], "1": [["abs", 1707, 7], ["abs", 2228, 8], ["dispose", 8]]},
+     "ticks": [500, 500, 507, 500, 21]},
+    # the clock moves between two absolute schedules of a foreign thread; an absolute time that is ahead for the
+    # first call may be in the past at the second
+    {"ts": True, "t0": 0, "pre": [["abs", 507, 1]], "progs": [[["abs", 1014, 2], ["abs", 521, 3], ["dispose", 2]]],
+     "bodies": {"1": [["abs", 1028, 4], ["dispose", 3]]}, "ticks": [500, 7, 500, 7, 14]},
+    # ---- a foreign thread that runs an event loop OF ITS OWN: `return self._loop == current_loop` ----
+    # the two-stage window again; the disposing thread has a running loop, so get_running_loop() succeeds
+    {"ts": True, "t0": 0, "pre": [], "progs": [[["rel", 1000, 1], ["dispose", 1]]], "bodies": {}, "ticks": [1000],
+     "own_loop": True},
+    # immediate + absolute, two foreign threads with their own loop, one dispose while the loop is not yet running
+    {"ts": True, "t0": 0, "pre": [["rel", 507, 1]],
+     "progs": [[["dispose", 1], ["now", 2], ["dispose", 2]], [["abs", 1021, 3], ["dispose", 3]]],
+     "bodies": {}, "ticks": [500, 7, 500, 14], "own_loop": True},
 ]
 
 
 def gen_case(rng):
     labels = iter(range(1, 30))
     ts = rng.random() < 0.8
+    t0 = rng.choice([0, 5000])
     sched = []
 
     def sched_op():
         a = next(labels)
         sched.append(a)
-        if rng.random() < 0.45:
+        x = rng.random()
+        if x < 0.35:
             return ["now", a]
-        d = rng.choice([0, 500, 1000, 1500])
         # asyncio leaves the order of timers with the same expiry undefined (heapq): keep expiries distinct
-        return ["rel", d + (7 * a if d else 0), a]
+        # (clock values at the calls are t0 + multiples of 500, so every expiry is = 7a modulo 500)
+        if x < 0.6:
+            # schedule_absolute: ahead of, at, or behind the clock of the call (which depends on the schedule)
+            return ["abs", t0 + rng.choice([-500, 0, 500, 1000, 1500, 2000]) + 7 * a, a]
+        d = rng.choice([0, 500, 1000, 1500, -500, -1])
+        return ["rel", d + (7 * a if d > 0 else 0), a]
 
     def prog(n):
         p, mine = [], []
@@ -120,7 +156,6 @@ def gen_case(rng):
         if rng.random() < 0.3:
             bodies[str(a)] = [["dispose", rng.choice(sched)]] if rng.random() < 0.6 else [sched_op()]
     ticks = [rng.choice([500, 500, 1000]) for _ in range(rng.choice([0, 1, 2, 3]))]
-    t0 = rng.choice([0, 5000])
     again = []
     if rng.random() < 0.45 and sched:
         # the loop is stopped and run again: by an action (optionally a busy one), by the loop thread before
@@ -147,7 +182,20 @@ def gen_case(rng):
             again.append(seg)
         if rng.random() < 0.3:
             ticks.append(50000)
-    return {"ts": ts, "t0": t0, "pre": pre, "again": again, "progs": progs, "bodies": bodies, "ticks": ticks}
+    case = {"ts": ts, "t0": t0, "pre": pre, "again": again, "progs": progs, "bodies": bodies, "ticks": ticks}
+    if progs and rng.random() < 0.25:
+        # the foreign threads dispose from inside a running event loop of their own
+        case["own_loop"] = True
+    return case
+
+
+def all_ops(case):
+    for l in [case.get("pre", [])] + case.get("again", []) + case["progs"] + list(case.get("bodies", {}).values()):
+        yield from l
+
+
+def has_op(case, pred):
+    return any(pred(o) for o in all_ops(case))
 
 
 def size(case, sched):
@@ -182,6 +230,8 @@ def run(chk):
     evals = 0
     quirks = {}
     restarted = set()
+    started = {"now": 0, "rel": 0, "rel_negative": 0, "abs_ahead": 0, "abs_not_ahead": 0}
+    own_marshalled = [0]
     lim_fixed, lim = (60, 14) if quick else (3000, 300)
 
     def judge(case, r, fine, sched):
@@ -194,6 +244,16 @@ def run(chk):
         i_ret = [i for i, e in enumerate(r.log) if e[2] == "runret"]
         if i_ret and any(e[2] in ("start", "dispret") for e in r.log[i_ret[0]:]):
             restarted.add(h)
+        ops = {o[-1]: o for o in all_ops(case) if o[0] in ("now", "rel", "abs")}
+        t_call = {e[3]: e[1] for e in r.log if e[2] == "call"}
+        for e in r.log:
+            if e[2] == "start" and e[3] in ops:
+                o = ops[e[3]]
+                if o[0] == "abs":
+                    started["abs_ahead" if o[1] > t_call.get(e[3], 0) else "abs_not_ahead"] += 1
+                else:
+                    started["rel_negative" if (o[0] == "rel" and o[1] < 0) else o[0]] += 1
+        own_marshalled[0] += getattr(r, "last_line", 0)
         for sig, msg in A.oracle(case, r):
             if sig.startswith("NOTE"):
                 quirks[sig] = quirks.get(sig, 0) + 1
@@ -253,8 +313,10 @@ def run(chk):
     chk.cov["evaluations"] = evals
     chk.cov["distinct_nontrivial"] = len(nontrivial)
     chk.cov["rule"] = ("a case = scheduler kind (thread-safe / plain), calls of the loop thread before run_forever(), "
-                       "0-2 foreign threads with 1-3 calls (schedule / schedule_relative / dispose of a returned "
-                       "disposable), optional one-call action bodies (dispose or schedule from inside an action), "
+                       "0-2 foreign threads with 1-3 calls (schedule / schedule_relative with positive, zero and negative "
+                       "delays / schedule_absolute ahead of, at and behind the clock / dispose of a returned "
+                       "disposable; in a quarter of the cases with foreign threads these dispose from inside a running "
+                       "event loop of their own), optional one-call action bodies (dispose or schedule from inside an action), "
                        "optionally loop.stop() (from an action -- possibly a busy one that first waits for the clock --, "
                        "from the loop thread before run_forever(), from a foreign thread) with 1-2 further segments of "
                        "calls of the loop thread each followed by run_forever() again (optionally after waiting for the "
@@ -266,6 +328,13 @@ def run(chk):
                                          with_bodies=sum(1 for c in cases if c["bodies"]),
                                          with_pre=sum(1 for c in cases if c["pre"]),
                                          with_stop_and_run_again=sum(1 for c in cases if c.get("again")),
+                                         with_schedule_absolute=sum(1 for c in cases if has_op(c, lambda o: o[0] == "abs")),
+                                         with_negative_relative=sum(
+                                             1 for c in cases if has_op(c, lambda o: o[0] == "rel" and o[1] < 0)),
+                                         foreign_threads_with_own_running_loop=sum(
+                                             1 for c in cases if c.get("own_loop")),
+                                         starts_by_kind=dict(started),
+                                         decisions_reaching_the_last_line_of_on_self_loop_or_not_running=own_marshalled[0],
                                          distinct_logs_with_events_after_a_restart=len(restarted))
     chk.cov["quirks_not_violations"] = quirks
     chk.cov["traces_validated_against_impl"] = len(coq_cases)
